@@ -106,7 +106,7 @@ Qed.
 (* converting constructor between compatible extents types preserves every extent *)
 Lemma c14_extents_convert_ok : forall p' p dyn, c14_spec_compatible p' (c14_extents_list p dyn) ->
   c14_extents_list p' (c14_extents_convert p' p dyn) = c14_extents_list p dyn.
-Proof. intros. unfold c14_extents_convert. apply c14_extents_all; auto. Qed.
+Proof. intros. unfold c14_extents_convert. apply c14_extents_ctor_all; auto. Qed.
 
 (* ------------------------------------------------------------------ enumeration of the index space *)
 Lemma c14_in_zrange : forall e i, In i (c14_zrange e) <-> 0 <= i < e.
@@ -417,3 +417,11 @@ Lemma c14_ex_from_mdspan :
   c14_mdarray_from_mdspan 0 C14_Left [10; 11; 12; 13; 14; 15; 16] 1 (C14_Mapping C14_Left [2; 3] [])
   = Some ([11; 12; 13; 14; 15; 16], C14_Mapping C14_Left [2; 3] []).
 Proof. vm_compute. reflexivity. Qed.
+
+(* extents<int,dyn,4>{2} -> extents<int,2,dyn> and extents<int,dyn,3,dyn>{2,4} -> extents<int,dyn,dyn,4>:
+   same number of dynamic extents at different positions *)
+Lemma c14_ex_convert_cross :
+  c14_spec_compatible [Some 2; None] (c14_extents_list [None; Some 4] [2]) /\
+  c14_extents_list [Some 2; None] (c14_extents_convert [Some 2; None] [None; Some 4] [2]) = [2; 4] /\
+  c14_extents_list [None; None; Some 4] (c14_extents_convert [None; None; Some 4] [None; Some 3; None] [2; 4]) = [2; 3; 4].
+Proof. split; [simpl; auto|split; vm_compute; reflexivity]. Qed.
